@@ -41,7 +41,7 @@ const (
 	// needs a small multiple of the input length (every entry costs >= 1 input byte).
 	c26AllocPerByte = 4096
 	c26AllocSlack   = 1 << 20
-	c26MemCap       = 4 << 30 // RLIMIT_AS of a child
+	c26MemCap       = 1 << 30 // address space a child may add to what it has at start (RLIMIT_AS)
 )
 
 func c26AllocBound(n int) uint64 { return uint64(n)*c26AllocPerByte + c26AllocSlack }
@@ -288,18 +288,32 @@ func uv(x uint64) []byte {
 	return append([]byte(nil), b[:binary.PutUvarint(b[:], x)]...)
 }
 
-var c26Lens = []uint64{1 << 16, 1 << 20, 1 << 24, 1 << 28, 1<<31 - 1, 1 << 31, 1 << 32, 1 << 40, 1 << 62, 1<<63 - 1, 1 << 63, 1<<64 - 1}
+// lengths spliced into the length positions: one that a decoder can still satisfy
+// (the allocation is measured), ones it cannot (make fails / the process runs out of
+// memory / the loop does not end), and ones that are negative as int.
+var c26Lens = []uint64{1 << 16, 1 << 31, 1 << 40, 1 << 62, 1<<63 - 1, 1 << 63, 1<<64 - 1}
 
 func c26LenBucket(l uint64) string {
 	switch {
-	case l <= 1<<24:
-		return "len<=2^24"
+	case l <= 1<<16:
+		return "len=2^16"
 	case l <= 1<<40:
-		return "len<=2^40"
+		return "len=2^31..2^40"
 	case l < 1<<63:
-		return "len<2^63"
+		return "len=2^62..2^63-1"
 	}
 	return "len>=2^63"
+}
+
+// c26LengthDriven: generator kinds whose whole point is one absurd length; after
+// such a class has stalled or killed a child once, the rest of the class is skipped.
+func c26LengthDriven(class string) bool {
+	for _, k := range []string{"/count", "/strlen", "/bitmaplen", "/allBranchesLen", "/entryBranches", "/v1-count", "/spliced"} {
+		if strings.Contains(class, k) {
+			return true
+		}
+	}
+	return false
 }
 
 func c26Version(dec string) byte {
@@ -433,8 +447,19 @@ type c26Arg struct {
 	StallMS                 int
 }
 
+// c26SetMemCap caps the address space of this process at its current size plus
+// c26MemCap, so that an absurd allocation fails (fatal error: out of memory) instead
+// of taking the machine down.
 func c26SetMemCap() {
-	lim := syscall.Rlimit{Cur: c26MemCap, Max: c26MemCap}
+	cur := uint64(0)
+	if b, err := os.ReadFile("/proc/self/statm"); err == nil {
+		if f := strings.Fields(string(b)); len(f) > 0 {
+			if pages, err := strconv.ParseUint(f[0], 10, 64); err == nil {
+				cur = pages * uint64(os.Getpagesize())
+			}
+		}
+	}
+	lim := syscall.Rlimit{Cur: cur + c26MemCap, Max: cur + c26MemCap}
 	_ = syscall.Setrlimit(syscall.RLIMIT_AS, &lim)
 }
 
@@ -467,6 +492,13 @@ func c26Child(rec *kit.Rec) {
 	var ms runtime.MemStats
 	end := min(a.End, len(cases))
 	for i := a.Start; i < end; i++ {
+		// A child that dies loses the summary it has not written yet, so the summary is
+		// written in instalments: a fresh record stream (same output file) every 250
+		// cases, each closed with its own childdone record.
+		if (i-a.Start)%250 == 249 {
+			rec.ChildDone()
+			rec = kit.Open("C26")
+		}
 		c := cases[i]
 		if skip[c.Class] || allocViol[c.Class] >= 2 {
 			rec.Count("hostile_skipped_class_already_reported", 1)
@@ -513,10 +545,11 @@ func c26Child(rec *kit.Rec) {
 			allocViol[c.Class]++
 			w["alloc_bytes"] = delta
 			w["bound_bytes"] = c26AllocBound(len(c.In))
-			rec.Violation("alloc/"+c.Class, fmt.Sprintf("%s.UnmarshalBinary allocated %d bytes for a %d-byte input (bound %d = %d*len+%d): allocation is driven by a length taken from the input",
+			rec.Violation("alloc/"+c.Dec, fmt.Sprintf("%s.UnmarshalBinary allocated %d bytes for a %d-byte input (bound %d = %d*len+%d): allocation is driven by a length taken from the input",
 				c26TypeName(c.Dec), delta, len(c.In), c26AllocBound(len(c.In)), c26AllocPerByte, c26AllocSlack), w)
 		}
 	}
+	rec.ChildDone()
 }
 
 func c26TypeName(dec string) string {
@@ -562,12 +595,15 @@ func TestVerif_C26(t *testing.T) {
 	}
 
 	// Part 2: hostile decodes in children
-	nBatches := rec.N(5, 100)
+	nBatches := rec.N(5, 60)
 	batchSize := rec.N(10000, 20000)
-	stall := rec.N(2000, 5000)
-	confirm := rec.N(10000, 60000)
-	env := []string{"GOMEMLIMIT=3GiB"}
+	stall := 500                  // ms: a decode slower than this ends the child; the case is then re-run alone
+	confirm := rec.N(5000, 30000) // ms: budget of the re-run
+	env := []string{"GOMEMLIMIT=3GiB", "GOMAXPROCS=2"} // 2 Ps: ReadMemStats stops the world twice per decode
 	skip := map[string]bool{}
+	sightings := map[string]int{} // class -> stalls + deaths
+	confirmed := map[string]int{} // decoder -> stalls re-run alone
+	deaths, maxDeaths := 0, rec.N(150, 600)
 	skipList := func() []string {
 		l := make([]string, 0, len(skip))
 		for k := range skip {
@@ -576,11 +612,16 @@ func TestVerif_C26(t *testing.T) {
 		sort.Strings(l)
 		return l
 	}
+batches:
 	for b := 0; b < nBatches; b++ {
 		start := 0
 		for start < batchSize {
 			arg, _ := json.Marshal(c26Arg{Batch: b, Size: batchSize, Start: start, End: batchSize, Skip: skipList(), StallMS: stall})
+			t0 := time.Now()
 			res := rec.RunChild("TestVerif_C26", "decode", string(arg), env, 20*time.Minute)
+			if os.Getenv("VERIF_DEBUG") != "" {
+				fmt.Fprintf(os.Stderr, "child batch=%d start=%d took=%v exit=%d last=%s\n", b, start, time.Since(t0).Round(time.Millisecond), res.Exit, clip(res.LastCase, 150))
+			}
 			if res.TimedOut {
 				rec.Note("child_watchdog", fmt.Sprintf("batch %d from %d: watchdog fired (inconclusive)", b, start))
 				break
@@ -593,36 +634,57 @@ func TestVerif_C26(t *testing.T) {
 				rec.Violation("harness/child-died-without-case", "child died before logging a case: "+res.CrashClass(), map[string]any{"tail": clip(res.Tail, 3000)})
 				break
 			}
+			deaths++
 			cases := c26Batch(rec.Seed, lc.Batch, batchSize)
 			in := cases[lc.I].In
 			w := map[string]any{"decoder": lc.Dec, "class": lc.Class, "input_hex": hex.EncodeToString(in[:min(len(in), 8192)]), "input_len": len(in), "batch": lc.Batch, "index": lc.I,
 				"child_exit": res.Exit, "child_signal": res.Signal, "child_output": clip(res.Tail, 4000),
 				"replay": fmt.Sprintf("var v %s; v.UnmarshalBinary(<input_hex bytes>)", c26TypeName(lc.Dec))}
-			if res.Exit == c26ExitStall {
-				// re-run alone with a larger budget
+			crash := func(res kit.ChildResult) {
+				rec.Count("hostile_child_deaths", 1)
+				w["child_output"] = clip(res.Tail, 4000)
+				rec.Violation("crash/"+lc.Dec+"/"+c26CrashKind(res), fmt.Sprintf("%s.UnmarshalBinary killed the process on a %d-byte input of class %s (address space capped at start size + %d GiB): %s",
+					c26TypeName(lc.Dec), len(in), lc.Class, c26MemCap>>30, res.CrashClass()), w)
+			}
+			switch {
+			case res.Exit != c26ExitStall:
+				crash(res)
+			case confirmed[lc.Dec] >= 1:
+				// the decoder's no-return behaviour is already on record; do not pay for
+				// another confirmation
+				rec.Count("hostile_stalls_not_rerun", 1)
+			default:
+				confirmed[lc.Dec]++
 				arg1, _ := json.Marshal(c26Arg{Batch: lc.Batch, Size: batchSize, Start: lc.I, End: lc.I + 1, StallMS: confirm})
+				t1 := time.Now()
 				res1 := rec.RunChild("TestVerif_C26", "decode1", string(arg1), env, 20*time.Minute)
+				if os.Getenv("VERIF_DEBUG") != "" {
+					fmt.Fprintf(os.Stderr, "  confirm took=%v exit=%d\n", time.Since(t1).Round(time.Millisecond), res1.Exit)
+				}
 				switch {
 				case res1.Exit == c26ExitStall:
 					rec.Count("hostile_no_return", 1)
-					rec.Violation("no-return/"+lc.Class, fmt.Sprintf("%s.UnmarshalBinary did not return within %d ms on a %d-byte input when run alone in a fresh process (a valid decode of this size takes microseconds): the loop count is taken from the input and errors do not stop the loop",
-						c26TypeName(lc.Dec), confirm, len(in)), w)
+					rec.Violation("no-return/"+lc.Dec, fmt.Sprintf("%s.UnmarshalBinary did not return within %d ms on a %d-byte input of class %s when run alone in a fresh process (a valid decode of this size takes microseconds): loop counts / map sizes are taken from the input and a read error does not stop the loops",
+						c26TypeName(lc.Dec), confirm, len(in), lc.Class), w)
 				case res1.Crashed():
-					w["child_output"] = clip(res1.Tail, 4000)
-					rec.Count("hostile_child_deaths", 1)
-					rec.Violation("crash/"+lc.Class+"/"+c26CrashKind(res1), fmt.Sprintf("%s.UnmarshalBinary killed the process on a %d-byte input: %s", c26TypeName(lc.Dec), len(in), res1.CrashClass()), w)
+					crash(res1)
 				default:
+					confirmed[lc.Dec]--
 					rec.Count("hostile_slow_but_returned", 1)
 				}
-			} else {
-				rec.Count("hostile_child_deaths", 1)
-				rec.Violation("crash/"+lc.Class+"/"+c26CrashKind(res), fmt.Sprintf("%s.UnmarshalBinary killed the process on a %d-byte input (address space capped at %d GiB): %s", c26TypeName(lc.Dec), len(in), c26MemCap>>30, res.CrashClass()), w)
 			}
-			skip[lc.Class] = true
+			sightings[lc.Class]++
+			if c26LengthDriven(lc.Class) || sightings[lc.Class] >= 3 {
+				skip[lc.Class] = true
+			}
 			start = lc.I + 1
+			if deaths >= maxDeaths {
+				rec.Note("stopped_early", fmt.Sprintf("%d children stalled or died: remaining hostile inputs not tried (inconclusive tail)", deaths))
+				break batches
+			}
 		}
 	}
-	rec.Note("skipped_classes_after_first_report", skipList())
+	rec.Note("classes_skipped_after_stall_or_death", skipList())
 }
 
 // c26CrashKind is a coarse, stable class of a child death.
